@@ -294,13 +294,15 @@ def run_seq_parallel(bindir, scratch, name, histories, variant=None, oracle=True
     return out
 
 
-def minimise(bindir, scratch, lines, still_fails, budget=250):
-    """ddmin over the op lines of one history (the `new` line stays)."""
+def minimise(bindir, scratch, lines, still_fails, budget=250, seconds=45):
+    """ddmin over the op lines of one history (the `new` line stays); bounded by a number
+    of attempts and by wall-clock time (large histories are slow to re-run)."""
     k = 2 if lines and lines[0] == "begin" else 1
     head, ops = lines[:k], list(lines[k:])
     n = 2
     tries = 0
-    while len(ops) >= 2 and tries < budget:
+    deadline = time.time() + seconds
+    while len(ops) >= 2 and tries < budget and time.time() < deadline:
         chunk = max(1, len(ops) // n)
         reduced = False
         for i in range(0, len(ops), chunk):
@@ -311,7 +313,7 @@ def minimise(bindir, scratch, lines, still_fails, budget=250):
                 n = max(n - 1, 2)
                 reduced = True
                 break
-            if tries >= budget:
+            if tries >= budget or time.time() >= deadline:
                 break
         if not reduced:
             if chunk == 1:
